@@ -14,7 +14,7 @@ from ..loader import AnalysisError, ClassInfo, FuncInfo, Module, Program
 from ..model import Model
 from ..report import Run
 from ..engine import Interp
-from ..values import Const, ListV, StrV, Sym, Term, TupleV, V
+from ..values import Const, DictV, Inst, ListV, StrV, Sym, Term, TupleV, V
 
 MOD = "d42.migration.migrate_v1_to_v2"
 
@@ -30,11 +30,16 @@ def _attrs_in(node: ast.AST) -> Set[str]:
 def check(run: Run, prog: Program, model: Model, tier: str) -> None:
     run.explanation = (
         "Static import resolution of every (module, name) target of the v1->v2 mapping literal against "
-        "/repo's own module and binding tables (re-exports chased to a definition), plus structure rules "
-        "on rewrite_imports: iteration domain (tree.body only), ImportFrom/level guards, flow of unmapped "
-        "names and aliases into the emitted text, and column-awareness of the splice. Clause 1 of the "
-        "property (all targets importable) is decided completely; the rewriter's behaviour on all "
-        "programs is not.")
+        "/repo's own module and binding tables (re-exports chased to a definition). rewrite_imports itself is "
+        "evaluated abstractly with one symbolic top-level statement N and one symbolic alias A of it (ast.parse, "
+        "splitlines are uninterpreted): on every path that records a replacement for N the path condition has "
+        "established isinstance(N, ast.ImportFrom) and N.level == 0, N is a member of ast.parse(..).body; the recorded "
+        "replacement text is a symbolic string from which `from <module> import <name>[ as <alias>]` is read off and "
+        "compared with mapping[N.module][A.name] (mapped) or N.module / A.name (unmapped); the value spliced into the "
+        "line list keeps the prefix [:col_offset] and suffix [end_col_offset:] of the shared lines, cut from the "
+        "encoded line, read at application time. Any spelling of guards, helpers, loops or comprehensions yields the "
+        "same paths. Clause 1 (all targets importable) is decided completely; the rewriter's behaviour on all programs "
+        "(several imports, several aliases per import, exotic layouts) is not.")
     run.rule_text = ("one obligation per mapping entry (target resolves; name preserved) and per structural "
                      "clause of rewrite_imports; non-trivial = needed re-export chasing through >=1 package "
                      "__init__ or a def-use derivation inside rewrite_imports")
@@ -83,8 +88,18 @@ def check(run: Run, prog: Program, model: Model, tier: str) -> None:
     fn = prog.func(f"{MOD}.rewrite_imports")
     body = fn.node
 
-    # how is the emitted name built for a mapped alias without `as`?
-    alias_safe = _rename_emits_as(body)
+    # ---------------------------------------------------------------- abstract evaluation of rewrite_imports
+    # one symbolic top-level statement N with one symbolic alias A; every rule below reads the paths
+    paths, records = _evaluate(prog, model, fn)
+    run.analysed["rewrite_imports_paths"] = len(paths)
+    run.analysed["recording_paths"] = len(records)
+
+    # ---------------------------------------------------------------- (3) SCOPE
+    _scope_toplevel(run, fn, records)
+    _scope_guards(run, fn, records)
+
+    # ---------------------------------------------------------------- (2) what is emitted for an alias
+    alias_safe = _emissions(run, mod, fn, records)
     if not renamed:
         run.holds("NAME-PRESERVING", "mapping (all entries)", mod.path,
                   f"all {n_entries} entries map a name to the same name", nontrivial=False)
@@ -100,65 +115,156 @@ def check(run: Run, prog: Program, model: Model, tier: str) -> None:
                              "`as <old name>`, so the local binding changes",
                              witness=f"from {old_mod} import {old_name}  # then use {old_name}")
 
-    # ---------------------------------------------------------------- (3) SCOPE
-    loops = [n for n in ast.walk(body) if isinstance(n, ast.For)]
-    tree_names = set()
-    for n in ast.walk(body):
-        if isinstance(n, ast.Assign) and isinstance(n.value, ast.Call):
-            f = n.value.func
-            if isinstance(f, ast.Attribute) and f.attr == "parse" and isinstance(f.value, ast.Name) and f.value.id == "ast":
-                for t in n.targets:
-                    if isinstance(t, ast.Name):
-                        tree_names.add(t.id)
-    node_loop = None
-    for lp in loops:
-        it = lp.iter
-        if isinstance(it, ast.Attribute) and it.attr == "body" and isinstance(it.value, ast.Name) and it.value.id in tree_names:
-            node_loop = lp
-            run.holds("SCOPE-TOPLEVEL", "rewrite_imports: statement loop", f"{mod.path}:{lp.lineno}",
-                      "iterates tree.body (top-level statements only)", nontrivial=True)
-        elif isinstance(it, ast.Call) and isinstance(it.func, ast.Attribute) and it.func.attr == "walk" \
-                and any(isinstance(a, ast.Name) and a.id in tree_names for a in it.args):
-            node_loop = lp
-            run.violated("SCOPE-TOPLEVEL", "rewrite_imports: statement loop", f"{mod.path}:{lp.lineno}",
-                         "iterates ast.walk(tree): nested imports are rewritten with whole-line replacements",
-                         witness="def f():\n    from district42 import schema\n")
-    if node_loop is None:
-        run.undecided("SCOPE-TOPLEVEL", "rewrite_imports: statement loop", fn.loc, "statement loop not recognised")
-        return
-    var = node_loop.target.id if isinstance(node_loop.target, ast.Name) else None
-    # the statement guarded by isinstance(node, ast.ImportFrom) (subject of the syntactic UNMAPPED / ALIAS rules below)
-    guard = None
-    for st in node_loop.body:
-        if isinstance(st, ast.If):
-            t = st.test
-            for c in ast.walk(t):
-                if isinstance(c, ast.Call) and isinstance(c.func, ast.Name) and c.func.id == "isinstance" \
-                        and len(c.args) == 2 and isinstance(c.args[0], ast.Name) and c.args[0].id == var:
-                    guard = st
-    gst = guard if guard is not None and not _only_exits(guard.body) else node_loop
-    _scope_guards(run, prog, model, fn, mod)
-
-    # unmapped names: list that receives names in the else-branch must be emitted with the ORIGINAL module
-    _check_unmapped(run, mod, fn, gst)
-
     # ---------------------------------------------------------------- (4) SPAN
-    uses_cols = bool({"col_offset", "end_col_offset"} & _attrs_in(body)) or \
-        any(isinstance(n, ast.Attribute) and n.attr in ("get_source_segment",) for n in ast.walk(body)) or \
-        "tokenize" in _names_in(body)
-    slice_assign = [n for n in ast.walk(body) if isinstance(n, ast.Assign) and any(
-        isinstance(t, ast.Subscript) and isinstance(t.slice, ast.Slice) for t in n.targets)]
-    if slice_assign and not uses_cols:
-        run.violated("SPAN", "rewrite_imports: splice granularity", f"{mod.path}:{slice_assign[0].lineno}",
-                     "replacement splices whole physical lines lineno..end_lineno and never consults "
-                     "col_offset/end_col_offset: other statements sharing a line with the import are dropped",
-                     witness='rewrite_imports("from district42 import schema; x = 1\\n", mapping) loses `x = 1`')
-    elif uses_cols:
-        run.holds("SPAN", "rewrite_imports: splice granularity", fn.loc,
-                  "splice consults column offsets / source segments", nontrivial=True)
-        _column_slices(run, mod, fn, body, node_loop, slice_assign)
+    _span(run, fn, records)
+    # vacuity guard: if no path of the abstract evaluation records a replacement, every rule above is undecided
+    run.floor("SCOPE-IMPORTFROM", 1)
+
+
+def _evaluate(prog: Program, model: Model, fn: FuncInfo) -> Tuple[List[Any], List[Any]]:
+    it = Interp(prog, model, unroll=1)
+
+    def run1(i: Interp) -> V:
+        return i.call_function(fn, [Sym("source_code", "str", ("param", "source_code")),
+                                    Sym("mapping", "dict", ("param", "mapping"))], {})
+    paths = it.run_paths(run1)
+    records = []      # (path, event, node symbol): the first write on the path whose value carries N.lineno
+    for p in paths:
+        for e in p.events:
+            if e.kind != "write":
+                continue
+            vals = list(e.data.get("args") or []) + ([e.data["value"]] if isinstance(e.data.get("value"), V) else [])
+            node = None
+            for a in vals:
+                for x in _walk_values(a):
+                    if isinstance(x, Term) and x.op == "attr" and len(x.args) == 2 and x.args[1] == "lineno" \
+                            and isinstance(x.args[0], Sym) and x.args[0].origin and x.args[0].origin[0] == "elem":
+                        node = x.args[0]
+            if node is not None:
+                records.append((p, e, node))
+                break
+    return paths, records
+
+
+def _scope_toplevel(run: Run, fn: FuncInfo, records: List[Any]) -> None:
+    c = "rewrite_imports: statement loop"
+    if not records:
+        run.undecided("SCOPE-TOPLEVEL", c, fn.loc, "no path records a replacement: collection not recognised")
+        return
+    srcs = {node.origin[1].key() for _, _, node in records if isinstance(node.origin[1], V)}
+    walk = sorted(k for k in srcs if "ast.walk" in k or "ast.iter_child_nodes" in k or "walk(" in k)
+    body = sorted(k for k in srcs if k.startswith("attr(call(ast.parse") and k.endswith(", body)"))
+    if walk:
+        run.violated("SCOPE-TOPLEVEL", c, fn.loc,
+                     f"statements are taken from {walk[0][:60]}: nested imports are rewritten too",
+                     witness="def f():\n    from district42 import schema\n")
+    elif body and len(body) == len(srcs):
+        run.holds("SCOPE-TOPLEVEL", c, fn.loc, "rewritten statements are members of ast.parse(source).body (top level only)", nontrivial=True)
     else:
-        run.undecided("SPAN", "rewrite_imports: splice granularity", fn.loc, "splice statement not recognised")
+        run.undecided("SCOPE-TOPLEVEL", c, fn.loc, f"statements come from {sorted(srcs)[0][:80]}")
+
+
+def _span(run: Run, fn: FuncInfo, records: List[Any]) -> None:
+    """SPAN / SPAN-BYTES / SPAN-FRESH on the value spliced into the line list for the recorded statement N:
+    the text around the import on its first / last physical line is cut with N.col_offset / N.end_col_offset (SPAN),
+    from the UTF-8 encoded line because ast offsets are byte offsets (SPAN-BYTES), and from the line as it is when
+    the replacement is applied, not from a copy taken while collecting (SPAN-FRESH: replacements are applied
+    last-to-first on one shared list, two imports on one physical line would otherwise overwrite each other)."""
+    site = fn.loc
+    c = "rewrite_imports: splice granularity"
+    splices = []        # (path, record event, splice event, node)
+    for p, e, node in records:
+        seen_rec = False
+        for ev in p.events:
+            if ev is e:
+                seen_rec = True
+                continue
+            if seen_rec and ev.kind == "write" and ev.data.get("how") == "setitem" and isinstance(ev.data.get("index"), Term) \
+                    and ev.data["index"].op == "sliceobj":
+                splices.append((p, e, ev, node))
+    if not splices:
+        for r in ("SPAN",):
+            run.undecided(r, c, site, "no slice assignment into the line list follows the recording of a replacement")
+        return
+    cuts: Dict[str, Tuple[Term, Any, Any, str]] = {}        # key -> (slice term, path, record event, which)
+    per_path = []
+    for p, e, ev, node in splices:
+        nk = node.key()
+        colk, endk = f"attr({nk}, col_offset)", f"attr({nk}, end_col_offset)"
+        found = set()
+        for x in _walk_values(ev.data["value"]):
+            if isinstance(x, Term) and x.op == "slice" and len(x.args) == 4:
+                lo, hi = x.args[1], x.args[2]
+                if isinstance(hi, V) and hi.key() == colk and isinstance(lo, Const) and lo.value in (None, 0):
+                    cuts.setdefault(x.key(), (x, p, e, "prefix"))
+                    found.add("prefix")
+                if isinstance(lo, V) and lo.key() == endk and isinstance(hi, Const) and hi.value is None:
+                    cuts.setdefault(x.key(), (x, p, e, "suffix"))
+                    found.add("suffix")
+        per_path.append((p, ev, found))
+    kinds = {w for _, _, _, w in cuts.values()}
+    if not cuts:
+        uses_segments = any("get_source_segment" in k or "tokenize" in k for p, _, ev, _ in splices for k in [ev.data["value"].key()])
+        if uses_segments:
+            run.undecided("SPAN", c, site, "splice built from source segments / tokens")
+        else:
+            run.violated("SPAN", c, site,
+                         "the replacement is spliced over whole physical lines lineno..end_lineno and never consults "
+                         "col_offset/end_col_offset: other statements sharing a line with the import are dropped",
+                         witness='rewrite_imports("from district42 import schema; x = 1\\n", mapping) loses `x = 1`')
+        return
+    probs = []
+    if "prefix" not in kinds:
+        probs.append("text BEFORE the import on its first line is never kept")
+    if "suffix" not in kinds:
+        probs.append("text AFTER the import on its last line is never kept")
+    # a splice that keeps neither must be on a path that established both are blank
+    for p, ev, found in per_path:
+        for which in ("prefix", "suffix"):
+            if which in found or which not in kinds:
+                continue
+            blank = False
+            for k, t, b in p.facts[:ev.nfacts]:
+                if b is False and any(ck in k for ck, (_, _, _, w) in cuts.items() if w == which) and "strip" in k:
+                    blank = True
+            if not blank:
+                probs.append(f"a replacement is spliced without the {which} on a path that did not establish it is blank")
+    if probs:
+        run.violated("SPAN", c, site, "; ".join(sorted(set(probs))),
+                     witness='rewrite_imports("x = 1; from district42 import schema; y = 2\\n", mapping) loses a statement')
+    else:
+        run.holds("SPAN", c, site, "prefix [:col_offset] and suffix [end_col_offset:] of the shared lines are kept unless blank", nontrivial=True)
+    for i, (ck, (x, p, e, which)) in enumerate(sorted(cuts.items(), key=lambda kv: kv[1][3])):
+        cc = f"rewrite_imports: column slice #{i + 1}"
+        recv = x.args[0]
+        loc = f"{fn.module.path}:{getattr(x.node, 'lineno', 0)}"
+        if isinstance(recv, Term) and recv.op == "mcall" and len(recv.args) >= 2 and recv.args[1] == "encode":
+            run.holds("SPAN-BYTES", cc, loc, f"{which}: column offset applied to the encoded (bytes) line", nontrivial=True)
+        elif isinstance(recv, Term) and recv.op == "getitem" or (isinstance(recv, V) and getattr(recv, "kind", None) == "str"):
+            run.violated("SPAN-BYTES", cc, loc,
+                         f"{which}: a UTF-8 byte offset is applied to a str: wrong cut when a non-ASCII character precedes it",
+                         witness="\"t = 'über'; from district42 import schema\\n\" is spliced one character off")
+        else:
+            run.undecided("SPAN-BYTES", cc, loc, f"{which}: receiver {recv.key()[:60]} of the column slice not recognised")
+        # the line read that feeds the cut
+        line_reads = [t for t in _walk_values(recv) if isinstance(t, Term) and t.op == "getitem"]
+        if isinstance(recv, Term) and recv.op == "getitem":
+            line_reads.append(recv)
+        pos_rec = p.events.index(e)
+        pos_read = None
+        for t in line_reads:
+            for j, ev2 in enumerate(p.events):
+                if ev2.kind == "partial" and ev2.data.get("op") == "getitem" and ev2.node is t.node:
+                    pos_read = j if pos_read is None else min(pos_read, j)
+        if pos_read is None:
+            run.undecided("SPAN-FRESH", cc, loc, f"{which}: the read of the line that is cut was not located")
+        elif pos_read > pos_rec:
+            run.holds("SPAN-FRESH", cc, loc, f"{which}: cut from the current line while applying", nontrivial=True)
+        else:
+            run.violated("SPAN-FRESH", cc, loc,
+                         f"{which}: the text kept around the import is cut while collecting; replacements are applied last-to-first, so for "
+                         "two imports on one physical line the stale text of the first overwrites the rewritten second",
+                         witness="'from district42 import schema; from valera import validate' keeps the v1 `valera` import")
 
 
 def _only_exits(body: List[ast.stmt]) -> bool:
@@ -182,38 +288,27 @@ def _walk_values(v: Any, seen: Optional[Set[int]] = None) -> Any:
         for piece in v.pieces:
             if not isinstance(piece, str):
                 yield from _walk_values(piece[0], seen)
+    elif isinstance(v, DictV):
+        for it in v.items:
+            if isinstance(it, tuple):
+                yield from _walk_values(it[0], seen)
+                yield from _walk_values(it[1], seen)
+            else:
+                yield from _walk_values(getattr(it, "value", it), seen)
+    elif isinstance(v, Inst):
+        for a in v.attrs.values():
+            yield from _walk_values(a, seen)
     elif isinstance(v, Sym) and v.origin:
         for a in v.origin:
             if isinstance(a, V):
                 yield from _walk_values(a, seen)
 
 
-def _scope_guards(run: Run, prog: Program, model: Model, fn: FuncInfo, mod: Module) -> None:
+def _scope_guards(run: Run, fn: FuncInfo, records: List[Any]) -> None:
     """SCOPE-IMPORTFROM / SCOPE-ABSOLUTE, decided on the paths of rewrite_imports (abstract evaluation with one
     symbolic top-level statement): whenever a replacement is recorded for a statement - some container receives a
     value carrying that statement's `lineno` - the path has established isinstance(node, ast.ImportFrom) and
     node.level == 0.  Independent of how the guards are spelled (nested ifs, early `continue`, helper functions)."""
-    it = Interp(prog, model, unroll=1)
-
-    def run1(i: Interp) -> V:
-        return i.call_function(fn, [Sym("source_code", "str", ("param", "source_code")),
-                                    Sym("mapping", "dict", ("param", "mapping"))], {})
-    paths = it.run_paths(run1)
-    records = []      # (path, event, node symbol)
-    for p in paths:
-        for e in p.events:
-            if e.kind != "write":
-                continue
-            vals = list(e.data.get("args") or []) + ([e.data["value"]] if isinstance(e.data.get("value"), V) else [])
-            node = None
-            for a in vals:
-                for x in _walk_values(a):
-                    if isinstance(x, Term) and x.op == "attr" and len(x.args) == 2 and x.args[1] == "lineno" \
-                            and isinstance(x.args[0], Sym) and x.args[0].origin and x.args[0].origin[0] == "elem":
-                        node = x.args[0]
-            if node is not None:
-                records.append((p, e, node))
-                break          # the first recording on the path
     site = fn.loc
     if not records:
         for r in ("SCOPE-IMPORTFROM", "SCOPE-ABSOLUTE"):
@@ -308,151 +403,178 @@ def _eval_level(t: Any, lk: str, lv: int) -> Optional[bool]:
     return None
 
 
-def _column_slices(run: Run, mod: Module, fn: FuncInfo, body: ast.FunctionDef, node_loop: ast.For, slice_assign: List[ast.Assign]) -> None:
-    """Column-aware splicing has two further necessary conditions:
-    SPAN-BYTES  - ast column offsets are UTF-8 byte offsets, so they must index the encoded line;
-    SPAN-FRESH  - replacements are applied last-to-first on a shared `lines` list, so the text kept around an
-                  import must be cut from the CURRENT line inside the apply loop, not precomputed while collecting
-                  (two rewritten imports on one physical line would otherwise overwrite each other)."""
-    # names carrying column offsets: direct attribute reads, tuple positions unpacked in a later loop
-    col_names: Set[str] = set()
-    for n in ast.walk(body):
-        if isinstance(n, ast.Assign) and isinstance(n.value, ast.Attribute) and n.value.attr in ("col_offset", "end_col_offset"):
-            col_names |= {t.id for t in n.targets if isinstance(t, ast.Name)}
-    tuple_pos: Dict[int, bool] = {}
-    for n in ast.walk(body):
-        if isinstance(n, ast.Call) and isinstance(n.func, ast.Attribute) and n.func.attr == "append" and n.args and isinstance(n.args[0], ast.Tuple):
-            for i, e in enumerate(n.args[0].elts):
-                if isinstance(e, ast.Attribute) and e.attr in ("col_offset", "end_col_offset"):
-                    tuple_pos[i] = True
-                if isinstance(e, ast.Name) and e.id in col_names:
-                    tuple_pos[i] = True
-    for n in ast.walk(body):
-        if isinstance(n, ast.For) and isinstance(n.target, ast.Tuple):
-            for i, e in enumerate(n.target.elts):
-                if tuple_pos.get(i) and isinstance(e, ast.Name):
-                    col_names.add(e.id)
-    apply_loop = None
-    for n in ast.walk(body):
-        if isinstance(n, ast.For) and any(sa_ in ast.walk(n) for sa_ in slice_assign):
-            apply_loop = n
-    sites = []
-    for n in ast.walk(body):
-        if isinstance(n, ast.Subscript) and isinstance(n.slice, ast.Slice):
-            bounds = [b for b in (n.slice.lower, n.slice.upper) if b is not None]
-            uses_col = any((isinstance(b, ast.Name) and b.id in col_names) or
-                           (isinstance(b, ast.Attribute) and b.attr in ("col_offset", "end_col_offset")) for b in bounds)
-            if uses_col:
-                sites.append(n)
-    if not sites:
-        return
-    for i, n in enumerate(sites):
-        base = n.value
-        c = f"rewrite_imports: column slice #{i + 1}"
-        loc = f"{mod.path}:{n.lineno}"
-        is_bytes = isinstance(base, ast.Call) and isinstance(base.func, ast.Attribute) and base.func.attr == "encode"
-        if is_bytes:
-            run.holds("SPAN-BYTES", c, loc, "column offset applied to the encoded (bytes) line", nontrivial=True)
+def _norm_key(v: Any) -> str:
+    """Key of a value with `a, b = T` unpacking and `T[i]` indexing identified."""
+    import re as _re
+    k = v.key() if isinstance(v, V) else str(v)
+    return _re.sub(r"\bunpack\(", "getitem(", k)
+
+
+def _line_shape(sv: StrV) -> List[Tuple[str, str]]:
+    out: List[Tuple[str, str]] = []
+    for piece in sv.pieces:
+        if isinstance(piece, str):
+            out.append(("lit", piece))
         else:
-            run.violated("SPAN-BYTES", c, loc,
-                         f"`{ast.unparse(n)[:60]}` applies a UTF-8 byte offset to a str: wrong cut when a non-ASCII character precedes it",
-                         witness="\"t = 'über'; from district42 import schema\\n\" is spliced one character off")
-        inside = apply_loop is not None and any(n is x for x in ast.walk(apply_loop))
-        in_collect = any(n is x for x in ast.walk(node_loop))
-        if inside:
-            run.holds("SPAN-FRESH", c, loc, "surrounding text is cut from the current line while applying", nontrivial=True)
-        elif in_collect:
-            run.violated("SPAN-FRESH", c, loc,
-                         "the text kept around the import is cut while collecting; replacements are applied last-to-first, so for two "
-                         "imports on one physical line the stale text of the first overwrites the rewritten second",
-                         witness="'from district42 import schema; from valera import validate' keeps the v1 `valera` import")
+            x, conv = piece
+            if isinstance(x, StrV) and not conv:
+                out.extend(_line_shape(x))
+            elif isinstance(x, Const) and isinstance(x.value, str) and not conv:
+                out.append(("lit", x.value))
+            else:
+                out.append(("val" + (conv or ""), _norm_key(x)))
+    merged: List[Tuple[str, str]] = []
+    for kind, txt in out:
+        if kind == "lit" and merged and merged[-1][0] == "lit":
+            merged[-1] = ("lit", merged[-1][1] + txt)
         else:
-            run.undecided("SPAN-FRESH", c, loc, "column slice outside both loops")
+            merged.append((kind, txt))
+    return merged
 
 
-def _rename_emits_as(fn: ast.FunctionDef) -> bool:
-    """True if for a mapped alias WITHOUT asname the emitted text is `<new> as <old>` when they differ."""
-    for n in ast.walk(fn):
-        if isinstance(n, ast.Compare) and len(n.ops) == 1 and isinstance(n.ops[0], (ast.NotEq, ast.Eq)):
-            names = _names_in(n)
-            if {"new_name", "name"} <= names:
-                return True
-    return False
-
-
-def _check_unmapped(run: Run, mod: Module, fn: FuncInfo, gst: ast.If) -> None:
-    # find `for alias in node.names` loop
-    alias_loop = None
-    for n in ast.walk(gst):
-        if isinstance(n, ast.For) and isinstance(n.iter, ast.Attribute) and n.iter.attr == "names":
-            alias_loop = n
-    if alias_loop is None:
-        run.undecided("UNMAPPED-KEPT", "rewrite_imports: alias loop", fn.loc, "alias loop not recognised")
-        return
-    # classify: an `if <in mapping>` with else-branch that appends to some list
-    mapped_lists: Set[str] = set()
-    unmapped_lists: Set[str] = set()
-    as_ok = {"mapped": False, "unmapped": False}
-    for st in alias_loop.body:
-        if isinstance(st, ast.If):
-            for branch, tag in ((st.body, "mapped"), (st.orelse, "unmapped")):
-                for x in branch:
-                    for c in ast.walk(x):
-                        if isinstance(c, ast.Call) and isinstance(c.func, ast.Attribute) and c.func.attr == "append":
-                            base = c.func.value
-                            nm = base.id if isinstance(base, ast.Name) else (
-                                base.value.id if isinstance(base, ast.Subscript) and isinstance(base.value, ast.Name) else None)
-                            if nm:
-                                (mapped_lists if tag == "mapped" else unmapped_lists).add(nm)
-                    # alias preserved: an f-string / expression mentioning asname with " as "
-                    for c in ast.walk(x):
-                        if isinstance(c, ast.JoinedStr):
-                            txt = "".join(v.value for v in c.values if isinstance(v, ast.Constant))
-                            if " as " in txt and "asname" in _names_in(c):
-                                as_ok[tag] = True
-    if not unmapped_lists:
-        run.violated("UNMAPPED-KEPT", "rewrite_imports: unmapped names", f"{mod.path}:{alias_loop.lineno}",
-                     "names that are not in the mapping are not collected for re-emission: they vanish from the import",
-                     witness="from district42 import schema, my_own_helper")
-        return
-    # the unmapped list must flow into an emitted line `from {module} import ...` with the original module variable
-    module_vars = set()
-    for n in ast.walk(gst):
-        if isinstance(n, ast.Assign) and isinstance(n.value, ast.Attribute) and n.value.attr == "module":
-            for t in n.targets:
-                if isinstance(t, ast.Name):
-                    module_vars.add(t.id)
-    emitted = False
-    for n in ast.walk(gst):
-        if isinstance(n, ast.If) and _names_in(n.test) & unmapped_lists:
-            for c in ast.walk(n):
-                if isinstance(c, ast.JoinedStr):
-                    txt = "".join(v.value for v in c.values if isinstance(v, ast.Constant))
-                    fv = [v for v in c.values if isinstance(v, ast.FormattedValue)]
-                    if txt.startswith("from ") and " import " in txt and fv:
-                        first = fv[0].value
-                        if (isinstance(first, ast.Name) and first.id in module_vars) or \
-                                (isinstance(first, ast.Attribute) and first.attr == "module"):
-                            emitted = True
-    if emitted:
-        run.holds("UNMAPPED-KEPT", "rewrite_imports: unmapped names", f"{mod.path}:{alias_loop.lineno}",
-                  f"unmapped names collected in {sorted(unmapped_lists)} and re-emitted as `from <original module> import ...`",
-                  nontrivial=True)
-    else:
-        run.violated("UNMAPPED-KEPT", "rewrite_imports: unmapped names", f"{mod.path}:{alias_loop.lineno}",
-                     "unmapped names are collected but not re-emitted from their original module",
-                     witness="from district42 import schema, my_own_helper")
-    for tag in ("mapped", "unmapped"):
-        c = f"rewrite_imports: asname ({tag} branch)"
-        if as_ok[tag]:
-            run.holds("ALIAS-KEPT", c, f"{mod.path}:{alias_loop.lineno}", "`<name> as <asname>` emitted when asname is set",
-                      nontrivial=True)
+def _emissions(run: Run, mod: Module, fn: FuncInfo, records: List[Any]) -> bool:
+    """UNMAPPED-KEPT / ALIAS-KEPT / MAPPED-TARGET, decided on the value that is recorded as replacement text on each
+    path (abstract evaluation with one symbolic statement N and one symbolic alias A of it): the text is a symbolic
+    string whose pieces are literals and values, so `from <X> import <Y>[ as <Z>]` can be read off it:
+      * A not in the mapping  ->  a line `from N.module import A.name[ as A.asname]`;
+      * A in the mapping      ->  a line `from mapping[N.module][A.name][0] import mapping[..][1][ as A.asname]`;
+      * A.asname set          ->  the alias follows the name it renames."""
+    site = fn.loc
+    alias_safe = False
+    verdicts: Dict[str, List[Tuple[str, str]]] = {"UNMAPPED-KEPT": [], "MAPPED-TARGET": [], "ALIAS-KEPT|mapped": [], "ALIAS-KEPT|unmapped": []}
+    for p, e, node in records:
+        nk = node.key()
+        vals = list(e.data.get("args") or []) + ([e.data["value"]] if isinstance(e.data.get("value"), V) else [])
+        alias = None
+        lines: List[StrV] = []
+        mentions_name = False
+        for a in vals:
+            for x in _walk_values(a):
+                if isinstance(x, Sym) and x.origin and x.origin[0] == "elem" and isinstance(x.origin[1], V) \
+                        and x.origin[1].key() == f"attr({nk}, names)":
+                    alias = x
+                if isinstance(x, StrV):
+                    lines.append(x)
+        if alias is None:
+            # the alias may have been dropped from the recorded text altogether: look for it in the path conditions
+            for k, t, b in p.facts[:e.nfacts]:
+                for x in _walk_values(t):
+                    if isinstance(x, Sym) and x.origin and x.origin[0] == "elem" and isinstance(x.origin[1], V) \
+                            and x.origin[1].key() == f"attr({nk}, names)":
+                        alias = x
+        if alias is None:
+            continue                    # no alias iterated on this path
+        ak = alias.key()
+        modk = f"attr({nk}, module)"
+        namek, asnamek = f"attr({ak}, name)", f"attr({ak}, asname)"
+        tgt = f"getitem(getitem(mapping, {modk}), {namek})"
+        newmod, newname = f"getitem({tgt}, 0)", f"getitem({tgt}, 1)"
+        facts = p.facts[:e.nfacts]
+        in_mod = in_name = None
+        asname: Optional[bool] = None
+        for k, t, b in facts:
+            if isinstance(t, Term) and t.op == "in" and len(t.args) == 2:
+                a0, a1 = t.args[0].key(), _norm_key(t.args[1])
+                if a0 == modk and a1 == "mapping":
+                    in_mod = b
+                if a0 == namek and a1 == f"getitem(mapping, {modk})":
+                    in_name = b
+            if isinstance(t, V) and t.key() == asnamek:
+                asname = b
+            if isinstance(t, Term) and t.op == "is" and t.args[0].key() == asnamek and isinstance(t.args[1], Const) and t.args[1].value is None:
+                asname = not b
+        for k, t, b in facts:
+            if isinstance(t, Term) and t.op == "eq" and {_norm_key(t.args[0]), _norm_key(t.args[1])} == {newname, namek}:
+                alias_safe = True          # the emitted text depends on whether the entry renames the symbol
+        if in_mod is True and in_name is True:
+            cls = "mapped"
+        elif in_mod is False or in_name is False:
+            cls = "unmapped"
         else:
-            run.violated("ALIAS-KEPT", c, f"{mod.path}:{alias_loop.lineno}",
-                         "asname is not re-emitted: the local binding of an aliased import changes",
-                         witness="from district42 import schema as s")
-
-
+            cls = None
+        shapes = [_line_shape(sv) for sv in lines]
+        shapes = [sh for sh in shapes if any(k == "lit" and "import" in t for k, t in sh)]
+        # outermost lines only (a line nested in another one is a fragment of it)
+        carrying = [sh for sh in shapes if any(k.startswith("val") and t in (namek, newname) for k, t in sh)]
+        where = f"{cls or 'unclassified'} alias, asname {'set' if asname else ('unset' if asname is False else '?')}"
+        if cls is None:
+            for r in ("UNMAPPED-KEPT", "MAPPED-TARGET"):
+                verdicts[r].append(("undecided", f"membership of the alias in the mapping is not tested in a recognised form ({where})"))
+            continue
+        rule = "UNMAPPED-KEPT" if cls == "unmapped" else "MAPPED-TARGET"
+        if not carrying:
+            opaque = any(isinstance(x, Term) and (namek in _norm_key(x) or newname in _norm_key(x)) for a in vals for x in _walk_values(a)
+                         if not isinstance(x, StrV))
+            if opaque:
+                verdicts[rule].append(("undecided", "the replacement text is not a recognisable symbolic string"))
+            elif cls == "unmapped":
+                verdicts[rule].append(("violated", "a name that is not in the mapping is not re-emitted: it vanishes from the import"))
+            else:
+                verdicts[rule].append(("violated", "a mapped name is not emitted in any replacement line"))
+            continue
+        for sh in carrying:
+            # from <X> import ... <name> [as <asname>]
+            modpiece = None
+            for i, (k, t) in enumerate(sh):
+                if k == "lit" and t.rstrip().endswith("from") and i + 1 < len(sh) and sh[i + 1][0].startswith("val"):
+                    modpiece = sh[i + 1][1]
+                    break
+            idx = next(i for i, (k, t) in enumerate(sh) if k.startswith("val") and t in (namek, newname))
+            npiece = sh[idx][1]
+            if cls == "unmapped":
+                if modpiece is None:
+                    verdicts[rule].append(("undecided", "module position of the emitted line not recognised"))
+                elif modpiece != modk:
+                    verdicts[rule].append(("violated", f"an unmapped name is re-emitted from {modpiece[:60]}, not from its original module"))
+                else:
+                    verdicts[rule].append(("holds", ""))
+            else:
+                if modpiece is None:
+                    verdicts[rule].append(("undecided", "module position of the emitted line not recognised"))
+                elif modpiece == newmod and npiece == newname:
+                    verdicts[rule].append(("holds", ""))
+                elif modpiece == modk:
+                    verdicts[rule].append(("violated", "a mapped name is emitted from its OLD module"))
+                elif modpiece == newname or npiece == newmod:
+                    verdicts[rule].append(("violated", "target module and target name of the mapping entry are swapped"))
+                elif npiece == namek and modpiece == newmod:
+                    verdicts[rule].append(("undecided", "the old name is emitted from the new module (equal only for name-preserving entries)"))
+                else:
+                    verdicts[rule].append(("violated", f"a mapped name is emitted as `from {modpiece[:40]} import {npiece[:40]}`"))
+            ar = f"ALIAS-KEPT|{cls}"
+            nxt = sh[idx + 1] if idx + 1 < len(sh) else None
+            nxt2 = sh[idx + 2] if idx + 2 < len(sh) else None
+            has_as = nxt is not None and nxt[0] == "lit" and nxt[1].startswith(" as ") and nxt2 is not None and nxt2[1] == asnamek
+            if asname is True:
+                if has_as:
+                    verdicts[ar].append(("holds", ""))
+                else:
+                    verdicts[ar].append(("violated", "asname is not re-emitted after the name: the local binding of an aliased import changes"))
+            elif asname is False:
+                if nxt is not None and nxt[0] == "lit" and nxt[1].startswith(" as "):
+                    verdicts[ar].append(("violated", "` as ` is emitted for an import without alias"))
+                else:
+                    verdicts[ar].append(("holds", ""))
+            elif has_as:
+                verdicts[ar].append(("violated", "`as <asname>` is emitted without testing whether the import has an alias (`as None`)"))
+            else:
+                verdicts[ar].append(("violated", "the alias of the import is never consulted on this path: `as <asname>` is lost"))
+    names = {"UNMAPPED-KEPT": ("UNMAPPED-KEPT", "rewrite_imports: unmapped names", "from district42 import schema, my_own_helper"),
+             "MAPPED-TARGET": ("MAPPED-TARGET", "rewrite_imports: mapped names", "from district42 import schema"),
+             "ALIAS-KEPT|mapped": ("ALIAS-KEPT", "rewrite_imports: asname (mapped branch)", "from district42 import schema as s"),
+             "ALIAS-KEPT|unmapped": ("ALIAS-KEPT", "rewrite_imports: asname (unmapped branch)", "from district42 import helper as h")}
+    for key, (rule, construct, wit) in names.items():
+        vs = verdicts[key]
+        bad = sorted({d for v, d in vs if v == "violated"})
+        und = sorted({d for v, d in vs if v == "undecided"})
+        ok = sum(1 for v, _ in vs if v == "holds")
+        if bad:
+            run.violated(rule, construct, site, "; ".join(bad)[:300], witness=wit)
+        elif und or not ok:
+            run.undecided(rule, construct, site, (und[0] if und else "no path of the abstract evaluation reaches this case"))
+        else:
+            run.holds(rule, construct, site, f"read off the recorded replacement text on {ok} paths", nontrivial=True)
+    return alias_safe
 
 
 M = "d42/migration/migrate_v1_to_v2.py"
@@ -476,6 +598,17 @@ MUTANTS = [
                (M, "node.col_offset, node.end_col_offset,", "0, 0,")]},
     {"name": "unmapped names re-emitted from the NEW module", "rule": "UNMAPPED-KEPT",
      "edits": [(M, "                replacement_lines.append(f'from {module} import {names_str}\\n')", "                replacement_lines.append(f'from {new_module} import {names_str}\\n')")]},
+    {"name": "mapped name emitted from its old module", "rule": "MAPPED-TARGET",
+     "edits": [(M, "                    new_imports[new_module].append(import_name)", "                    new_imports[module].append(import_name)")]},
+    {"name": "mapping target unpacked in the wrong order", "rule": "MAPPED-TARGET",
+     "edits": [(M, "                    new_module, new_name = mapping[module][name]", "                    new_name, new_module = mapping[module][name]")]},
+    {"name": "alias emitted unconditionally (as None)", "rule": "ALIAS-KEPT",
+     "edits": [(M, '                    import_name = f"{name} as {asname}" if asname else name', '                    import_name = f"{name} as {asname}"')]},
+    {"name": "neutral: mapping target read by index", "expect": "SILENT",
+     "edits": [(M, "                    new_module, new_name = mapping[module][name]", "                    target = mapping[module][name]\n                    new_module, new_name = target[0], target[1]")]},
+    {"name": "neutral: guard clauses instead of nesting, alias text by a helper", "expect": "SILENT",
+     "edits": [(M, "        if isinstance(node, ast.ImportFrom):\n            module = node.module\n            if node.level > 0:\n                continue  # Skip relative imports like 'from .module import ...'\n",
+                "        if not isinstance(node, ast.ImportFrom) or node.level:\n            continue\n        if True:\n            module = node.module\n")]},
     {"name": "neutral: relative guard written as != 0", "expect": "SILENT",
      "edits": [(M, "            if node.level > 0:", "            if node.level != 0:")]},
     {"name": "neutral: loop variable renamed", "expect": "SILENT",
